@@ -132,6 +132,17 @@ def run(prog: Program, res: Result, tier: str) -> None:
         res.ok("R3", st, ga[0], f"gen_{{kind}} exists as a classmethod for every kind in {kinds}", key="dispatch")
     else:
         res.bad("R3", st, st.node, f"template dispatch cannot resolve kinds {missing or kinds}", construct="dispatch", key="dispatch")
+    # a template as long as the data is legal (the circular correlation over len(data) is defined for it): the bank is refused only
+    # for a template strictly longer than the data, and every template that passes is appended
+    nfs = normal_form(st)
+    raises_in_loop = [e for e in nfs.raises() if any(c.startswith("L<") for c in e.ctx)]
+    strict = bool(raises_in_loop) and all(any(c.startswith("if cmp[Lt](self.data.size, ") and c.endswith(".data.size)") for c in e.ctx) for e in raises_in_loop)
+    appended = [e for e in nfs.effects if e.kind == "expr" and ".append(" in e.text() and any(c.startswith("L<") for c in e.ctx)]
+    kept = bool(appended) and all(any(c.startswith("ifnot cmp[Lt](self.data.size, ") for c in e.ctx) and
+                                  not any("self.data.size" in c and not c.startswith("ifnot cmp[Lt](self.data.size, ") for c in e.ctx) for e in appended)
+    (res.ok if strict and kept else res.bad)("R3", st, st.node, "a template is refused only when it is strictly longer than the data; every other one joins the bank" if strict and kept else
+                                             "_setup_templates no longer refuses exactly the templates that are longer than the data (a template as long as the data is legal: "
+                                             "data of exactly the largest template's length would be rejected, or an over-long template accepted)", construct="template guard", key="template-guard")
     pi = tmpl.methods.get("__attrs_post_init__")
     ok = pi is not None and any(e.under("self.ref_bin >= self.data.size") for e in normal_form(pi).raises())
     (res.ok if ok else res.bad)("R3", pi, pi.node if pi else tmpl.node, "a reference bin outside the template raises ValueError" if ok else
@@ -207,4 +218,11 @@ MUTANTS = [
     {"id": "c13-pad-linear", "file": KF, "expect": "C13.R1",
      "old": "        result[i] = arr[i % n]", "new": "        result[i] = arr[min(i, n - 1)]"},
 ]
-TWINS = []
+MUTANTS += [
+    {"id": "c13-template-guard-ge", "file": "sigpyproc/core/filters.py", "expect": "C13.R3",
+     "old": "            if temp.data.size > self.data.size:", "new": "            if temp.data.size >= self.data.size:"},
+]
+TWINS = [
+    {"id": "c13-twin-template-guard-flipped", "file": "sigpyproc/core/filters.py",
+     "old": "            if temp.data.size > self.data.size:", "new": "            if self.data.size < temp.data.size:"},
+]
